@@ -405,6 +405,15 @@ def padding_bytes(prog):
     seen_input = False
     for b, t in ext:
         bs = _const_bytes_of_arg(fn, t["args"][1]) if callee_is(t, "extend_from_slice") else None
+        if bs is None and callee_is(t, "resize") and seen_input and len(t["args"]) >= 3 and op_int(t["args"][2]) is not None:
+            # resize(json.len() + K, byte): fills up to K bytes behind the input copy
+            v = _sym(fn, t["args"][1])
+            if v is not None and v[0] is not None and v[0][0] == "call":
+                lt = fn.blocks[v[0][1]]["term"]
+                ll = op_local(lt["args"][0]) if callee_is(lt, "len") and lt["args"] else None
+                lsl, lleaves = backward_slice(fn, [ll]) if ll is not None else (set(), [])
+                if any(lf[0] == "param" for lf in lleaves) and v[1] >= len(pads):
+                    bs = bytes([op_int(t["args"][2]) & 0xFF]) * (v[1] - len(pads))
         if bs is None:
             # the copy of the caller's input (derived from parameter `json`)
             sl, leaves = backward_slice(fn, [op_local(t["args"][1])]) if op_local(t["args"][1]) is not None else (set(), [])
